@@ -10,7 +10,7 @@ SKIP = ("skip",)
 BINARY = ["add", "sub", "mul", "truediv", "floordiv", "mod", "divmod", "pow", "lshift", "rshift",
           "and", "or", "xor", "lt", "le", "gt", "ge", "eq", "ne"]
 UNARY = ["neg", "pos", "abs", "invert", "check_zero", "check_nonzero", "check_positive"]
-TERNARY = ["ite", "if_else"]
+TERNARY = ["ite", "if_else", "lc_if_else"]
 CMP = {"lt": o.lt, "le": o.le, "gt": o.gt, "ge": o.ge, "eq": o.eq, "ne": o.ne}
 
 
@@ -77,7 +77,7 @@ def ref(name, vals, ts, cfg):
     if name in TERNARY:
         c, x, y = vals
         if c not in (0, 1):
-            return RAISES
+            return SKIP if name == "lc_if_else" else RAISES     # LinComb.if_else documents no check of its condition
         return ("val", int(x) if c else int(y))
     return SKIP
 
@@ -147,4 +147,6 @@ def in_core(name, vals, ts, cfg):
         return ts[0] == "B" and vals[0] in (0, 1)
     if name == "if_else":
         return ts[0] == "B" and vals[0] in (0, 1)
+    if name == "lc_if_else":
+        return ts[0] == "I" and vals[0] in (0, 1)
     return False
